@@ -26,6 +26,29 @@ CFG = dict(
 def run(ctx):
     return vlib.standard_flow(ctx, CFG)
 
+
+def replay(ctx, path):
+    """Re-evaluate one replay file inside Coq: model == implementation?, oracle verdict, and the
+    (dispatch chain kind, probe interface, verdict reached, verdict the specification demands) of every failing probe."""
+    import json, os
+    r = json.load(open(path))
+    case = r.get("case") or r.get("first_case")
+    if not case:
+        print(json.dumps(r, indent=1)); return 0
+    print("kind:", r.get("kind"), "| sample:", json.dumps(case.get("sample")))
+    ok, log = vlib.coq_build(vlib.prop_targets("Common") + vlib.prop_targets("C10"))
+    if not ok:
+        print(log[-3000:]); return 1
+    v = os.path.join(ctx.build, "replay_case.v")
+    with open(v, "w") as f:
+        f.write("From Coq Require Import List NArith.\nImport ListNotations.\n" + "\n".join(CFG["imports"]) + "\nFrom Verif.C10 Require Import Diag.\n")
+        f.write("Definition c : case := %s.\n" % case["coq"])
+        f.write("Set Printing Width 200.\nSet Printing Depth 100000.\n")
+        f.write("Eval vm_compute in (check_case c).\nEval vm_compute in (diagnose c).\n")
+    ok, out = vlib.coqc(v)
+    print(out[-6000:])
+    return 0 if ok else 1
+
 MANIFEST = dict(
     category="proof",
     text="Theorems over an executable model of the dispatch-chain construction (sort, common prefix, prefix tree with goto "
